@@ -161,7 +161,10 @@ func (r *renderer) Render(w io.Writer, source []byte, n ast.Node) error {
 	err := ast.Walk(n, func(n ast.Node, entering bool) (ast.WalkStatus, error) {
 		s := ast.WalkStatus(ast.WalkContinue)
 		var err error
-		f := r.nodeRendererFuncs[n.Kind()]
+		var f NodeRendererFunc
+		if kind := int(n.Kind()); kind >= 0 && kind < len(r.nodeRendererFuncs) {
+			f = r.nodeRendererFuncs[kind]
+		}
 		if f != nil {
 			s, err = f(writer, source, n, entering)
 		}
